@@ -92,9 +92,16 @@ def run_one(seed, preset=None, tier="quick", want_case=False):
                 unknown_field_defaults.append("v%d" % i)
         vardefs.append(("v%d" % i, ty, default))
         sels.append(Field(fname, None, [("a", ("var", "v%d" % i))]))
+    novars = tape.sub("novars").chance(10)
+    if novars:
+        # an operation that declares NO variable at all (literals instead), executed with variables: they are all extra
+        nt = tape.sub("novars")
+        for (vn, ty_, _), sel in zip(vardefs, sels):
+            sel.args = [("a", gen_literal(schema, ty_, nt, 10))]
+        vardefs, invalid_defaults, unknown_field_defaults = [], [], []
     op = Operation("query", "Q", vardefs, sels)
     ops = [op]
-    if vt.chance(30):
+    if vt.chance(30) and not novars:
         # a second operation declaring the SAME variable names with other types / defaults: the
         # definitions of the selected operation are the ones that count
         vardefs2, sels2 = [], []
@@ -133,9 +140,12 @@ def run_one(seed, preset=None, tier="quick", want_case=False):
                 v = mutate(v, vt)
             raw[name] = v
         mutations[mode] = mutations.get(mode, 0) + 1
-    if vt.chance(15):
+    if vt.chance(15) or novars:
         raw["notDeclared"] = {"anything": [1, "x"]}
         mutations["extra_variable"] = 1
+    if novars:
+        raw["v0"] = 5
+        mutations["operation_without_variable_definitions"] = 1
     case.variables = raw
     cfg = pick_engine_cfg(cfgt)
     sched = pick_scheduler(cfgt)
